@@ -306,6 +306,11 @@ type iterHandler struct {
 }
 
 func (h *iterHandler) Next(env *object.Env) (object.PanObject, *object.PanErr) {
+	// NOTE: without prop `next` no StopIterErr can ever be raised (builtInCallProp answers nil)
+	if _, ok := object.FindPropAlongProtos(h.iter, object.GetSymHash(nextSym.Value)); !ok {
+		return nil, object.NewTypeErr("iter must have prop `next`")
+	}
+
 	// call `(iter).next`
 	nextRet := builtInCallProp(env, object.EmptyPanObjPtr(),
 		object.EmptyPanObjPtr(), h.iter, nextSym)
